@@ -3,6 +3,7 @@ import ast
 import z3
 from .values import *
 from .core import *
+from . import listsets
 
 
 
@@ -261,6 +262,8 @@ class ExprMixin:
         raise Undecided('string equality %r == %r' % (la, ra))
 
     def contains(self, l, r, p, line):
+        if isinstance(r, listsets.VSet):
+            t, _ = self.num(l, 'in', p, line); return z3.Select(r.t, t)
         if isinstance(r, VCList):
             ts = [self.equal(l, x, p, line) for x in r.items]
             return z3.Or(*ts) if ts else z3.BoolVal(False)
